@@ -6921,15 +6921,16 @@ class MenuNode:
         """
         A set() with all symbols and choices that this menu node depends on.
 
-        Unlike 'referenced', this excludes symbols that are targets of 'select' and 'imply'
+        Unlike 'referenced', this excludes the targets and the conditions of 'select' and 'imply'
         statements, as those represent reverse dependencies (things this symbol affects)
         rather than true dependencies (things that affect this symbol's value/visibility).
+        The condition of 'select FOO if BAR' only matters for FOO; BAR may itself depend on this
+        symbol, which is not a dependency loop.
 
         Includes:
         - Symbols from 'depends on' (self.dep)
         - Symbols from prompt conditions
         - Symbols from default value expressions and conditions
-        - Symbols from select/imply conditions (but NOT the targets)
         - Symbols from range expressions and conditions
         - For MENU items: symbols from visibility
         """
@@ -6950,13 +6951,8 @@ class MenuNode:
             res |= expr_items(value)
             res |= expr_items(cond)
 
-        # For selects and implies, only include the condition, not the target.
-        # The target is what we're affecting (reverse dependency), not depending on.
-        for _target, cond in self.selects:
-            res |= expr_items(cond)
-
-        for _target, cond in self.implies:
-            res |= expr_items(cond)
+        # Selects and implies are not included at all: neither the target nor the condition
+        # influences this node's own value (reverse dependency).
 
         for low, high, cond in self.ranges:
             res.add(low)
